@@ -3,12 +3,12 @@ package main
 // C12 - ECDSA key blinding is consistent, invertible, commutative and context-bound.
 
 import (
-	"go/types"
-	"strconv"
 	"fmt"
 	"go/constant"
 	"go/token"
+	"go/types"
 	"sort"
+	"strconv"
 	"strings"
 
 	"golang.org/x/tools/go/ssa"
